@@ -37,7 +37,7 @@ Fixpoint trun_obs (e : env) (P : tparams) (n : tnet) (vs : list tev) : list V :=
 Definition idle_init (srv : bool) (key t0 K : Z) : conn :=
   (conn0 srv) <| c_key := Some key |> <| c_status := CONNECTED |> <| c_last_recv := t0 |> <| c_ka_interval := K |>.
 
-(* UNIT 1210 idle_pair_run : [env; [tau; d; T]; [key; t0; K_client; K_server]; events]
+(* UNIT 1210 idle_pair_run : [env; [tau; d; T; life]; [key; t0; K_client; K_server]; events]
    -> [established?; params_ok?; tvalid?; per event [status client; status server; swept; last_recv client;
        last_recv server; #emitted client; #emitted server; seq client; seq server; window head client; window head server]]
    events: [0; now; src] UdpClient.update, [1; now; src] server-side _recv_datagram, [2; now] server sweep;
@@ -45,7 +45,7 @@ Definition idle_init (srv : bool) (key t0 K : Z) : conn :=
 Definition u_idle_pair_run (v : V) : V :=
   let e := env_of_V (vnth v 0) in
   let p := vnth v 1 in
-  let P := {| tp_tau := as_int (vnth p 0); tp_d := as_int (vnth p 1); tp_T := as_int (vnth p 2) |} in
+  let P := {| tp_tau := as_int (vnth p 0); tp_d := as_int (vnth p 1); tp_life := as_int (vnth p 3); tp_T := as_int (vnth p 2) |} in
   let i := vnth v 2 in
   let key := as_int (vnth i 0) in
   let t0 := as_int (vnth i 1) in
